@@ -549,14 +549,29 @@ func (v *verdicts) expectAnswers0(o *outcome) bool {
 		v.bad("C17/panic-escaped/"+m+"/"+panicSite(o.Panic), "no tool panicked, yet the call panicked: "+o.Panic.Value+"\n"+o.Panic.Stack)
 		return false
 	}
+	ws := v.e.wants
+	// calls whose tool, in this mode, hands back a stream that ends without a chunk:
+	// their output is "", an output like any other (empty_output_test.go)
+	esc := v.e.c.emptyStreamCalls(v.mode)
 	if err := o.anyErr(); err != nil {
+		if len(esc) > 0 && (!streamMode(v.mode) || (v.mode == mGraphStreamConcat && len(esc) == len(ws))) {
+			v.bad("C17/empty-tool-stream/call-fails/"+m, fmt.Sprintf(
+				"every tool succeeded; the streaming tool of call(s) %v closed its stream without a chunk (its output is \"\"), and the call failed instead of answering with %d tool messages: %s",
+				esc, len(ws), firstLine(err.Error())))
+			return false
+		}
 		v.bad("C17/unexpected-error/"+m, "every tool succeeded, yet the call failed: "+err.Error())
 		return false
 	}
 	for _, s := range o.Shape {
+		if s == "empty-stream" && len(esc) == len(ws) {
+			v.bad("C17/empty-tool-stream/empty-stream/"+m, fmt.Sprintf(
+				"%d tool call(s), each answered by a streaming tool that closed its stream without a chunk (output \"\"): the streamed form carries no list at all, it concatenates to nothing instead of %d tool messages with content \"\"",
+				len(ws), len(ws)))
+			return false
+		}
 		v.bad("C17/stream-shape/"+m+"/"+s, "streamed lists are not position-wise concatenable: "+s)
 	}
-	ws := v.e.wants
 	if len(o.Msgs) != len(ws) {
 		v.bad("C17/wrong-count/"+m, fmt.Sprintf("%d tool calls, %d tool messages", len(ws), len(o.Msgs)))
 		return false
@@ -565,6 +580,9 @@ func (v *verdicts) expectAnswers0(o *outcome) bool {
 	for i, w := range ws {
 		g := o.Msgs[i]
 		switch {
+		case g == nil && containsInt(esc, i):
+			v.bad("C17/empty-tool-stream/missing-answer/"+m, fmt.Sprintf(
+				"the streaming tool of call %d (%s) closed its stream without a chunk: the concatenated list has nil at position %d instead of a tool message with id %q and content \"\"", i, w.Class, i, w.ID))
 		case g == nil:
 			v.bad("C17/missing-answer/"+m, fmt.Sprintf("no message for call %d (%s)", i, w.Class))
 		case g.Role != schema.Tool:
@@ -632,6 +650,18 @@ func (v *verdicts) expectToolError0(o *outcome, failing []int) bool {
 	}
 	var tf *toolFailure
 	if !errors.As(err, &tf) {
+		if !streamMode(v.mode) {
+			// the tools node reports the first call, in call order, whose task has an
+			// error: a succeeding streaming tool without chunks in front of the failing tool
+			for _, i := range v.e.c.emptyStreamCalls(v.mode) {
+				if v.rs.plan[i] == actOK && i < failing[0] {
+					v.bad("C17/empty-tool-stream/masks-tool-error/"+m, fmt.Sprintf(
+						"calls %v failed with *toolFailure; the call failed with an error that is not that tool's error (errors.As): call %d, whose streaming tool succeeded with a stream without chunks, comes first in the list: %T %v",
+						failing, i, err, firstLine(err.Error())))
+					return false
+				}
+			}
+		}
 		v.bad("C17/tool-error-not-unwrappable/"+v.errorSite(failing),
 			fmt.Sprintf("calls %v failed with *toolFailure; the call failed with an error from which errors.As cannot recover it: %T %v", failing, err, firstLine(err.Error())))
 		return false
@@ -729,13 +759,38 @@ func TestCheck(t *testing.T) {
 	rep.Require("runs_panic_checked", 10)
 	rep.Require("runs_unknown_answered_by_handler", 5)
 	rep.Require("runs_unknown_without_handler_rejected", 5)
+	rep.Require("typed_args_runs_matching_reference", 50)
+	rep.Require("typed_args_calls_omitting_what_an_earlier_call_of_the_tool_set", 50)
+	rep.Require("quiet_cases", 10)
 	k := &checker{t: t, rep: rep}
 	n := int64(cfg.Pick(150, 2000))
 	rep.Cases(n, func(idx int64, rng *mon.Rand) {
 		if k.dead {
 			return
 		}
-		c := genCase(rng.Sub("case"))
+		// shares: 14 % typed-arguments sequences (typedargs_test.go), 22 % cases with
+		// tools whose total output is empty (empty_output_test.go), the rest ordinary
+		share := rng.Sub("share").Intn(100)
+		if share < 14 {
+			tc := genTACase(rng.Sub("typed-args"))
+			te, err := buildTAEnv(tc)
+			if err != nil {
+				rep.Violation("C17/construction-failed/typed-args", "a generated utils tool / tools node / graph was rejected: "+err.Error(), tc)
+				return
+			}
+			k.runTACase(te)
+			if idx < 40 && tc.Omitting > 0 {
+				rep.Sample(tc)
+			}
+			return
+		}
+		var c *caseSpec
+		if share < 36 {
+			c = genQuietCase(rng.Sub("quiet-case"))
+			k.noteQuiet(c)
+		} else {
+			c = genCase(rng.Sub("case"))
+		}
 		e, err := buildEnv(c)
 		if err != nil {
 			rep.Violation("C17/construction-failed", "a generated tool set / graph was rejected: "+err.Error(), c)
@@ -933,7 +988,7 @@ func (k *checker) runCase(e *env, rng *mon.Rand, thorough bool) {
 			if sub&(1<<i) != 0 {
 				failing = append(failing, i)
 				plan[i] = actFail
-				if rng.Prob(0.4) {
+				if rng.Prob(0.4) && c.quietCall(i) != "nochunk" {
 					plan[i] = actFailMid
 				}
 			}
